@@ -251,6 +251,13 @@ class Gen:
         for ns in ('iso', 'joliet', 'udf'):
             for p, n in model.ns[ns].items():
                 if n.kind == 'file' and n.cid is not None:
+                    if n.cid != 'catalog' and model.boot_refs(n.cid) and len(model.names_of(n.cid)) <= 1:
+                        # the last name of a boot image: a fully hidden image keeps only its El
+                        # Torito load size across a reopen (documented), so the generic generator
+                        # leaves that to the boot profile, which knows when it is lossless
+                        continue
+                    if n.cid == 'catalog' and len(model.names_of('catalog')) <= 1:
+                        continue
                     cands.append((ns, p))
                 elif n.kind == 'symlink' and ns == 'udf':
                     cands.append((ns, p))
